@@ -489,7 +489,14 @@ void World::CheckCycles(const InvRecord& r, const std::set<std::string>& dd_at_s
     v.insert(v.end(), s.oo_ins.begin(), s.oo_ins.end());
     if (const DyndepEntry* e = sc.DyndepFor(id)) {
       const DyndepFile* d = sc.FindDyndep(s.dyndep);
-      bool certain = d && d->producer < 0 && dd_at_start.count(s.dyndep);
+      // certainly loaded: a dyndep file that existed from the start and whose
+      // producer (if any) had nothing to do, or one whose producer ran to
+      // success in this invocation (it is loaded the moment the producer finishes)
+      bool producer_ran_ok = false, producer_ran = false;
+      if (d && d->producer >= 0)
+        for (const SpawnRec& x : r.spawns) if (x.stmt == d->producer) { producer_ran = true; if (x.reap_seq && x.reap_status == 0) producer_ran_ok = true; }
+      bool certain = d && ((dd_at_start.count(s.dyndep) && !producer_ran && r.res.exit_code == 0) ||
+                           (dd_at_start.count(s.dyndep) && d->producer < 0) || producer_ran_ok);
       if (level == 1 || certain) v.insert(v.end(), e->imp_ins.begin(), e->imp_ins.end());
     }
     if (level == 1) {
@@ -561,7 +568,8 @@ void World::CheckCycles(const InvRecord& r, const std::set<std::string>& dd_at_s
     if (r.res.exit_code == 0) Report("C17", "cycle_missed", "ninja reported a dependency cycle but exited with status 0");
   } else if (must) {
     // other legitimate early errors (e.g. a missing source) come first
-    if (r.res.exit_code == 0 || r.res.err.find("ninja: error:") == std::string::npos || !r.spawns.empty())
+    bool other_error = r.res.exit_code != 0 && (r.res.err.find("ninja: error:") != std::string::npos || r.res.out.find("build stopped") != std::string::npos);
+    if (!other_error)
       Report("C17", "cycle_missed", "the graph needed for the targets contains a dependency cycle, but ninja " + std::string(r.res.exit_code == 0 ? "exited with status 0" : "did not report it") + (r.spawns.empty() ? "" : " and started commands"));
   }
 }
